@@ -40,6 +40,9 @@ pub struct Expect {
 #[derive(Clone, Debug, PartialEq, Eq, Serialize, Deserialize)]
 pub enum Op {
     UpdateRaw { s: String, owned: bool },
+    /// update_raw with the very same `&str` (same address) as the client's latest borrowed
+    /// update_raw: pointer identity, not just equal content
+    UpdateRawAgain,
     UpdateTokenized { s: String, expect: Option<Expect> },
     UpdatePartial { s: String, expect: Option<Expect> },
     NewRaw { s: String, owned: bool },
@@ -58,6 +61,7 @@ impl Op {
     pub fn kind(&self) -> &'static str {
         match self {
             Op::UpdateRaw { .. } => "update_raw",
+            Op::UpdateRawAgain => "update_raw(same slice)",
             Op::UpdateTokenized { .. } => "update_tokenized",
             Op::UpdatePartial { .. } => "update_partial_annotation",
             Op::NewRaw { .. } => "from_raw",
@@ -78,6 +82,7 @@ impl Op {
     pub fn kind_id(&self) -> u8 {
         match self {
             Op::UpdateRaw { .. } => 0,
+            Op::UpdateRawAgain => 16,
             Op::UpdateTokenized { .. } => 1,
             Op::UpdatePartial { .. } => 2,
             Op::NewRaw { .. } => 3,
@@ -105,6 +110,10 @@ pub struct PredSpec {
     pub model: usize,
     pub predict_tags: bool,
     pub store_scores: bool,
+    /// built, serialised and restored with `deserialize_from_slice_unchecked` (on its own,
+    /// self-produced bytes, as the embedded-device example does)
+    #[serde(default)]
+    pub restored: bool,
 }
 
 #[derive(Clone, Debug, PartialEq, Eq, Serialize, Deserialize)]
@@ -353,7 +362,8 @@ pub fn gen_plan(rng: &mut Rng, k: &HistKnobs) -> HistPlan {
         // (thread tier: half of the predictors are non-tagging, i.e. use the cached type scorer)
         let predict_tags = if k.min_clients >= 2 { rng.chance(1, 2) } else { rng.chance(2, 3) };
         let store_scores = predict_tags && rng.chance(1, 2);
-        preds.push(PredSpec { model, predict_tags, store_scores });
+        let restored = k.min_clients < 2 && rng.chance(1, 6);
+        preds.push(PredSpec { model, predict_tags, store_scores, restored });
     }
     let n_clients = match rng.below(10) {
         0..=5 => 1,
@@ -378,7 +388,13 @@ pub fn gen_plan(rng: &mut Rng, k: &HistKnobs) -> HistPlan {
         let w_sett = rng.range(0, 8);
         while ops.len() < n_ops {
             match rng.weighted(&[w_update, w_ctor, w_reset, w_predict, w_fill, w_filter, w_setb, w_sett]) {
-                0 => ops.push(gen_update(rng, k, false, &mut recent)),
+                0 => {
+                    if !k.update_heavy && rng.chance(1, 10) {
+                        ops.push(Op::UpdateRawAgain)
+                    } else {
+                        ops.push(gen_update(rng, k, false, &mut recent))
+                    }
+                }
                 1 => {
                     if rng.chance(1, 8) {
                         ops.push(Op::NewDefault)
@@ -526,6 +542,15 @@ pub fn build_predictors(plan: &HistPlan) -> Built {
             // (what read_slice returns as remainder is C07's business, not this engine's)
             let (model, _rest) = Model::read_slice(&bytes).map_err(|e| e.to_string())?;
             let mut pr = Predictor::new(model, p.predict_tags).map_err(|e| e.to_string())?;
+            if p.restored {
+                let bytes = pr.serialize_to_vec().map_err(|e| e.to_string())?;
+                // SAFETY: the bytes were produced by serialize_to_vec() just now
+                let (restored, rest) = unsafe { Predictor::deserialize_from_slice_unchecked(&bytes) }.map_err(|e| e.to_string())?;
+                if !rest.is_empty() {
+                    return Err("deserialize left bytes over".to_string());
+                }
+                pr = restored;
+            }
             pr.store_tag_scores(p.store_scores);
             Ok(pr)
         });
@@ -748,6 +773,17 @@ pub fn execute(plan: &HistPlan, preds: &[Predictor], ex: &mut Exec) -> (Option<V
         let oi = clients[ci].next;
         clients[ci].next += 1;
         let op = &plan.clients[ci][oi];
+        let op = if let Op::UpdateRawAgain = op {
+            match plan.clients[ci][..oi].iter().rev().find(|o| matches!(o, Op::UpdateRaw { owned: false, .. })) {
+                Some(earlier) => {
+                    probe!("update_raw-with-the-identical-slice");
+                    earlier
+                }
+                None => continue,
+            }
+        } else {
+            op
+        };
         let c = &mut clients[ci];
         st.steps += 1;
         h.u64(ci as u64);
@@ -1250,11 +1286,22 @@ fn client_trace(ops: &[Op], plan: &HistPlan, preds: &[Predictor], barrier: Optio
     let mut s = Sentence::default();
     let mut linked: Option<usize> = None;
     let mut cands_ok = false;
-    for op in ops {
+    for (oi, op) in ops.iter().enumerate() {
         if let Some(b) = barrier {
             // all clients start their k-th operation together
             b.wait();
         }
+        let op = if let Op::UpdateRawAgain = op {
+            match ops[..oi].iter().rev().find(|o| matches!(o, Op::UpdateRaw { owned: false, .. })) {
+                Some(earlier) => earlier,
+                None => {
+                    out.push(0);
+                    continue;
+                }
+            }
+        } else {
+            op
+        };
         if op.is_update_or_ctor() {
             match op {
                 Op::UpdateRaw { s: t, owned } => {
